@@ -45,7 +45,13 @@ func fieldFilledFrom(e *Env, ctor *ssa.Function, typ, src string) string {
 			if !ok || typesName(derefT(fa.X.Type())) != typ {
 				continue
 			}
-			if p, okp := e.C.PathOf(st.Val); okp && len(p.Fields) > 0 && p.Fields[len(p.Fields)-1] == src {
+			val := st.Val
+			for d := 0; d < 2; d++ { // `limit(cfg.MaxActiveRuns)`: a conversion to the field's own type
+				if cv, isCv := val.(*ssa.Convert); isCv {
+					val = cv.X
+				}
+			}
+			if p, okp := e.C.PathOf(val); okp && len(p.Fields) > 0 && p.Fields[len(p.Fields)-1] == src {
 				return ir.FieldNameOf(fa.X.Type(), fa.Field)
 			}
 		}
